@@ -175,6 +175,7 @@ def run(ctx: Ctx):
     ctx.ob("C20.b", "RewardScaler.__call__:scale", scale_ok, fc.loc, "'scale' returns scores / (std + eps)", construct="RewardScaler.__call__:scale")
     exponential_rules(ctx)
     warmup_rules(ctx)
+    warmup_wrap(ctx)
 
 
 def exponential_rules(ctx: Ctx):
@@ -274,6 +275,31 @@ def warmup_rules(ctx: Ctx):
                 d_, op_ = r_
                 pos = pos or (op_ == ">0" and d_ == nf.poly(n0)) or (op_ == ">=0" and d_ == nf.poly(n0) - nf.Poly.const(1))
     ctx.ob("C20.d", "WarmupBaseline.__init__:alpha0", vg.is_const(a0, 0) and pos, init.loc, f"alpha starts at 0: {vg.is_const(a0, 0)}; n_epochs > 0 is asserted: {pos}", construct="WarmupBaseline.__init__:alpha")
+
+
+def warmup_wrap(ctx: Ctx):
+    """C20.d: while alpha == 0 the warm-up (exponential) baseline applies alone, so the training set must not be wrapped with
+    the inner baseline's per-instance values (REINFORCE would use them as bl_val instead of the mixture): wrap_dataset delegates
+    to the inner baseline iff alpha > 0."""
+    wb = ctx.repo.get_class(BL, "WarmupBaseline")
+    fw = wb.methods["wrap_dataset"]
+    ctx.fn(fw)
+    it = vg.Interp(ctx.repo, wb, inline_policy=lambda f, a: False)
+    fr = it.run_function(fw)
+    ok, why = False, f"{len(fr.returns)} return paths"
+    alts = []
+    for c, v in fr.returns:
+        v = it.sym(v)
+        who = v.args[0].args[0] if isinstance(v, vg.S) and v.op == "meth" and v.args[1] == "wrap_dataset" and v.args[0].op == "selfattr" else None
+        alts.append((c, who))
+    inner = [c for c, w in alts if w == "baseline"]
+    warm = [c for c, w in alts if w == "warmup_baseline"]
+    if len(inner) == 1 and len(warm) == 1 and isinstance(inner[0], vg.S):
+        r_ = nf.cmpnf(inner[0])
+        g_ok = r_ is not None and r_[1] == ">0" and r_[0] == nf.poly(A("alpha"))
+        ok = g_ok
+        why = f"inner baseline's wrap_dataset iff alpha > 0 (strict): {g_ok}; otherwise the warm-up baseline's"
+    ctx.ob("C20.d", "WarmupBaseline.wrap_dataset:guard", ok, fw.loc, why, construct="WarmupBaseline.wrap_dataset:guard")
 
 
 def _alpha_eq(c, k):
